@@ -267,6 +267,35 @@ class Check:
             raise Inconclusive("TLC %s/%s failed: %s\n%s" % (module, cfg, res.error, res.out[-4000:]))
         return res
 
+    def apalache(self, module, args, timeout=600, name=None):
+        """Run apalache-mc check on spec/<module>.tla in a fresh directory -> "ok" | "error" | "unavailable".
+        A symbolic (unbounded-parameter) obligation: never a verdict about the code by itself."""
+        exe = shutil.which("apalache-mc")
+        if not exe:
+            self.notes.append("apalache-mc not on PATH: %s skipped" % (name or module))
+            return "unavailable"
+        wd = tempfile.mkdtemp(prefix="apa-", dir=self.scratch)
+        for f in os.listdir(SPEC):
+            if f.endswith(".tla"):
+                shutil.copy(os.path.join(SPEC, f), wd)
+        env = dict(os.environ)
+        env.setdefault("JVM_ARGS", "-Xmx4g")
+        rc, out, err, wall = run(["timeout", "-k", "5", str(timeout), exe, "check", "--out-dir=" + os.path.join(wd, "out"),
+                                  "--run-dir=" + os.path.join(wd, "run")] + args + [module + ".tla"],
+                                 cwd=wd, timeout=timeout + 60, env=env)
+        txt = out + err
+        if "EXITCODE: OK" in txt:
+            st = "ok"
+        elif rc == 124 or "EXITCODE" not in txt:
+            st = "unavailable"
+            self.notes.append("apalache %s did not finish (rc=%d, %.0fs): skipped" % (name or module, rc, wall))
+        else:
+            st = "error"
+        self.tlc_runs.append(dict(name="apalache " + (name or module), generated=0, distinct=0, wall_s=round(wall, 2), rc=rc))
+        log("APALACHE %s %s: %s rc=%d %.1fs" % (module, " ".join(args), st, rc, wall))
+        self.last_apalache = txt
+        return st
+
     def model_ok(self, res, what):
         """A model-level run that is expected to pass on the current specification. A failure is a
         model/code divergence (exit 2) unless concretised and reproduced by the caller."""
